@@ -22,12 +22,20 @@ Dispatch(k, em, gm, pm, dor) ==
        ELSE IF pm THEN [level |-> "participant", kind |-> k]
        ELSE [level |-> "none", kind |-> k]
 
+(* How the listeners got there: installed when the entity is created, installed later with set_listener, or       *)
+(* installed at creation and removed again with set_listener(None, no status) at the endpoint / the group level:  *)
+(* a removed listener has no mask any more, the status goes to the next level.                                     *)
+How == {"create", "set", "removed-endpoint", "removed-group"}
+Eff(cfg) == [em |-> cfg.em /\ cfg.how # "removed-endpoint", gm |-> cfg.gm /\ cfg.how # "removed-group",
+             dor |-> cfg.dor /\ cfg.how # "removed-group"]
+
 VARIABLE c
-Init == c \in [k : ReaderKinds \cup WriterKinds, em : BOOLEAN, gm : BOOLEAN, pm : BOOLEAN, dor : BOOLEAN]
+Init == c \in [k : ReaderKinds \cup WriterKinds, em : BOOLEAN, gm : BOOLEAN, pm : BOOLEAN, dor : BOOLEAN, how : How]
         /\ (c.dor => c.k = "DataAvailable")
+        /\ (c.how = "removed-endpoint" => c.em) /\ (c.how = "removed-group" => (c.gm \/ c.dor))
 Next == UNCHANGED c
 Spec == Init /\ [][Next]_c
-Emit == PrintT(<<"CASE", ToJson([c |-> c, to |-> Dispatch(c.k, c.em, c.gm, c.pm, c.dor)])>>)
+Emit == PrintT(<<"CASE", ToJson([c |-> c, to |-> Dispatch(c.k, Eff(c).em, Eff(c).gm, c.pm, Eff(c).dor)])>>)
 \* exactly one receiver: the dispatch is a function (trivially) and "none" only if no mask enables the status
-OnlyNoneWhenDisabled == Dispatch(c.k, c.em, c.gm, c.pm, c.dor).level = "none" <=> (~c.em /\ ~c.gm /\ ~c.pm /\ ~c.dor)
+OnlyNoneWhenDisabled == Dispatch(c.k, Eff(c).em, Eff(c).gm, c.pm, Eff(c).dor).level = "none" <=> (~Eff(c).em /\ ~Eff(c).gm /\ ~c.pm /\ ~Eff(c).dor)
 =============================================================================
